@@ -498,6 +498,11 @@ def unknown_store_guard(e, fam):
     return guard_has(e.guards, pred, True)
 
 
+def _judge_mutant(run, mrepo, name, ctx):
+    ci, fams, encs = ctx['classes'][name]
+    check_class(run, mrepo, ctx['eff'], ctx['fr'], mrepo.cls(name), fams, encs)
+
+
 def main(repo_path, tier, seed, replay=None):
     run = Run('C03', tier, level='other', seed=seed)
     repo = Repo(repo_path)
@@ -517,6 +522,10 @@ def main(repo_path, tier, seed, replay=None):
             run.violation('C03-W', f.file, f.func, f.construct, f.message, f.detail)
     run.instance('C03-W', 'widths of addresses and write-back values', obligations=len(names), ok=True, sample={'classes': len(names)})
     controls(run, repo_path, eff, fr, classes)
+    if tier == 'thorough':
+        from ..selftest import run_selftest
+        targets = [(name, ci.module.relpath, ci.module.source, name + '.execute') for name, (ci, fams, encs) in sorted(classes.items())]
+        run_selftest(run, repo_path, 'C03', targets, _judge_mutant, {'fr': fr, 'eff': eff, 'classes': classes}, per_function=14, floor=75, seconds=12)
     run.exhaustive = True
     run.undecided = ['memory contents after a transfer for a concrete register list (run-time quantity)',
                      'what MemA/MemU do with each word (C13)']
